@@ -41,6 +41,8 @@ type Options struct {
 	Level      string
 }
 
+var contractFailures []string
+
 var pkgName = map[string]string{".": "dst", "decorator": "decorator", "dstutil": "dstutil",
 	"decorator/resolver/goast": "goast", "decorator/resolver/gotypes": "gotypes",
 	"decorator/resolver/guess": "guess", "decorator/resolver/simple": "simple"}
@@ -99,7 +101,11 @@ func buildOverlay(o *Options, harnessNames map[string][]string) (map[string]stri
 		os.WriteFile(regf, []byte(sb.String()), 0o644)
 		ov[filepath.Join(o.Repo, p, "zz_verif_registry.go")] = regf
 		tf := filepath.Join(wd, "replay_test.go")
-		os.WriteFile(tf, []byte("package "+name+"\n\nimport \"testing\"\n\nfunc TestVerifReplay(t *testing.T) { vfRunReplays() }\n"), 0o644)
+		testSrc := "package " + name + "\n\nimport \"testing\"\n\nfunc TestVerifReplay(t *testing.T) { vfRunReplays() }\n"
+		if extra, err := os.ReadFile(filepath.Join(hd, "contracts_test.go.txt")); err == nil {
+			testSrc = "package " + name + "\n\nimport (\n\t\"fmt\"\n\t\"go/ast\"\n\t\"go/parser\"\n\t\"go/token\"\n\t\"testing\"\n)\n\nvar _ = ast.NewIdent\n\nfunc TestVerifReplay(t *testing.T) { vfRunReplays() }\n" + string(extra)
+		}
+		os.WriteFile(tf, []byte(testSrc), 0o644)
 		ov[filepath.Join(o.Repo, p, "zz_verif_replay_test.go")] = tf
 	}
 	return ov, nil
@@ -217,10 +223,19 @@ func treeHash(repo string) string {
 
 // nativeRun executes replay files natively: go test -overlay in the repo package.
 func nativeRun(o *Options, ov map[string]string, pkgDir string, replayDir string, race bool) (map[string]string, string, error) {
-	ovf := filepath.Join(o.WorkDir, "overlay.json")
-	b, _ := json.Marshal(map[string]interface{}{"Replace": ov})
+	// only the overlay files of the package under test: harness files of other packages may import it
+	// (e.g. decorator's harness imports goast), which would be an import cycle for that package's tests
+	one := map[string]string{}
+	pdir := filepath.Join(o.Repo, pkgDir)
+	for v, r := range ov {
+		if filepath.Dir(v) == filepath.Clean(pdir) {
+			one[v] = r
+		}
+	}
+	ovf := filepath.Join(o.WorkDir, "overlay_"+strings.Replace(pkgDir, "/", "_", -1)+".json")
+	b, _ := json.Marshal(map[string]interface{}{"Replace": one})
 	os.WriteFile(ovf, b, 0o644)
-	args := []string{"test", "-vet=off", "-count=1", "-overlay", ovf, "-run", "^TestVerifReplay$", "-v", "-timeout", "20m"}
+	args := []string{"test", "-vet=off", "-count=1", "-overlay", ovf, "-run", "^TestVerif(Replay|Contracts)$", "-v", "-timeout", "20m"}
 	if race {
 		args = append(args, "-race")
 	}
@@ -235,6 +250,9 @@ func nativeRun(o *Options, ov map[string]string, pkgDir string, replayDir string
 	out, err := cmd.CombinedOutput()
 	res := map[string]string{}
 	for _, l := range strings.Split(string(out), "\n") {
+		if strings.HasPrefix(l, "VFCONTRACT FAILED") {
+			contractFailures = append(contractFailures, l)
+		}
 		if strings.HasPrefix(l, "VFRESULT ") {
 			f := strings.SplitN(l[len("VFRESULT "):], " ", 2)
 			if len(f) == 2 {
@@ -250,7 +268,7 @@ func nativeRun(o *Options, ov map[string]string, pkgDir string, replayDir string
 
 func main() {
 	o := &Options{}
-	var pkgs, run string
+	var pkgs, run, cross string
 	var timeoutS int
 	flag.StringVar(&o.Repo, "repo", "/repo", "repository root")
 	flag.StringVar(&o.HarnessDir, "harness", "", "harness dir (default <root>/harness)")
@@ -271,12 +289,21 @@ func main() {
 	flag.IntVar(&timeoutS, "timeout", 0, "overall time budget in seconds (0 = none)")
 	flag.IntVar(&o.Cfg.PathWorkers, "path-workers", 0, "parallel path workers per harness (0 = auto)")
 	flag.StringVar(&o.ExtraInit, "init", "", "comma separated extra packages whose init runs at the start of every path")
+	flag.StringVar(&cross, "cross", "", "comma separated extra back ends that re-check every discharged obligation (bv = z3 bit-vector encoding, z3-new, cvc5)")
 	flag.BoolVar(&o.NativeRace, "native-race", false, "run native replays one by one under the Go race detector")
 	flag.BoolVar(&o.NoNative, "no-native", false, "skip native replays (debugging only)")
 	flag.BoolVar(&o.Verbose, "v", false, "verbose")
 	flag.StringVar(&o.ReplayOnly, "replay", "", "replay one recorded counterexample natively and exit")
 	flag.StringVar(&o.KnownFile, "known", "", "known findings file (default <root>/known_findings.json)")
 	flag.Parse()
+	for _, c := range strings.Split(cross, ",") {
+		switch c {
+		case "bv":
+			o.Cfg.Cross = append(o.Cfg.Cross, "z3")
+		case "z3-new", "cvc5":
+			o.Cfg.Cross = append(o.Cfg.Cross, c)
+		}
+	}
 	verboseCrash = o.Verbose
 	o.Pkgs = strings.Split(pkgs, ",")
 	o.Run = regexp.MustCompile(run)
